@@ -10,6 +10,8 @@
    TLC explores the whole class product and exports every class with the predicted outcome
    (<<"CASE", ...>> lines), which the harness concretises into real byte strings. *)
 EXTENDS Naturals, Sequences, FiniteSets, TLC
+CONSTANT Async     \* FALSE: Server::handle_message; TRUE: Server::async_handle_message (src/api/server/async_io.rs), which differs
+                   \* in async_write's size test (used by C20 to compare the two procedures)
 
 Ops == {"LOOKUP","FORGET","GETATTR","SETATTR","READLINK","SYMLINK","MKNOD","MKDIR","UNLINK","RMDIR","RENAME","LINK","OPEN","READ",
         "WRITE","STATFS","RELEASE","FSYNC","SETXATTR","GETXATTR","LISTXATTR","REMOVEXATTR","FLUSH","INIT","OPENDIR","READDIR",
@@ -39,7 +41,8 @@ BodyClasses(sh) ==
     [] sh \in {"st_name1"} -> {"ok", "no_nul", "st_short"}
     [] sh = "name2" -> {"ok", "no_nul", "one_nul_at_end"}
     [] sh = "st_name2" -> {"ok", "no_nul", "one_nul_at_end", "st_short"}
-    [] sh \in {"st","forget","write","setupmapping"} -> {"ok", "st_short"}
+    [] sh \in {"st","forget","setupmapping"} -> {"ok", "st_short"}
+    [] sh = "write" -> {"ok", "st_short", "size_gt_max"}          \* size field > MAX_BUFFER_SIZE (whatever the payload)
     [] sh = "read" -> {"ok", "st_short"}
     [] sh = "bforget" -> {"ok", "st_short", "count_gt_payload", "count_over_limit"}
     [] sh = "readdir" -> {"ok", "st_short", "size_gt_avail"}
@@ -113,6 +116,8 @@ Oversize ==                                                            \* after 
      THEN IF c.op \in {"FORGET", "BATCH_FORGET"} THEN Finish("Err") /\ Unch
           ELSE ReplyErrThen("Ok")                                      \* ENOMEM
      ELSE pc' = "parse" /\ UNCHANGED <<c, nreply, wrote, buffered, fscalls, ret, panic>>
+\* (before the two "fix:" commits for C20 the asynchronous entry point answered oversize forgets and refused every request
+\*  whose reply buffer was shorter than a header; both procedures now share this test)
 
 \* get_message_body: len - 40 - sub_hdr_sz by checked_sub, then read_exact(len')
 BodyWindow == CASE c.lenf \in {"lt40", "ltst"} -> "badlen"            \* InvalidHeaderLength
@@ -136,6 +141,7 @@ Parse ==
                  IF BodyWindow # "got" THEN Finish("Err") /\ Unch
                  ELSE IF c.body \in {"no_nul", "size_mismatch"} THEN Finish("Err") /\ Unch    \* MissingParameter / InvalidXattrSize
                  ELSE Goto("fs")
+            [] sh = "write" -> IF Async /\ c.body = "size_gt_max" THEN ReplyErrThen("Ok") ELSE Goto("fs")   \* async_write: ENOMEM
             [] sh = "bforget" -> IF c.body \in {"count_gt_payload", "count_over_limit"} THEN Finish("Err") /\ Unch ELSE Goto("fs")
             [] sh = "read" ->
                  \* split_at(16) on the reply writer
